@@ -256,3 +256,203 @@ pub fn classics() -> Vec<&'static str> {
         "%start A\n%%\nA: B C; B: 'b' | ; C: D A | 'c'; D: 'd' | ;",
     ]
 }
+
+// ---------------------------------------------------------------------------------------------------
+// C14: decorated rendering (all optional declarations, non-ASCII token names / action text / %epp,
+// the three grammar dialects). Additive: nothing above is changed.
+
+/// dialect: 0 Original(GenericParseTree) 1 Original(UserAction) 2 Original(NoAction) 3 Grmtools 4 Eco
+#[derive(Clone, Debug)]
+pub struct Deco {
+    pub kind: u8,
+    /// per token: the text between the quotes
+    pub tok_names: Vec<String>,
+    pub epp: Vec<Option<String>>,
+    /// per rule, per production
+    pub actions: Vec<Vec<Option<String>>>,
+    pub actiontype: Option<String>,
+    pub rule_types: Vec<String>,
+    pub parse_param: Option<(String, String)>,
+    pub parse_generics: Option<String>,
+    pub programs: Option<String>,
+    pub implicit: Vec<usize>,
+}
+
+pub fn yacc_kind(kind: u8) -> YaccKind {
+    match kind {
+        0 => YaccKind::Original(YaccOriginalActionKind::GenericParseTree),
+        1 => YaccKind::Original(YaccOriginalActionKind::UserAction),
+        2 => YaccKind::Original(YaccOriginalActionKind::NoAction),
+        3 => YaccKind::Grmtools,
+        _ => YaccKind::Eco,
+    }
+}
+
+const NAME_STEMS: [&str; 6] = ["t", "é", "日本", "🦀", "Ω-", "a b"];
+const TEXTS: [&str; 8] = [
+    "Ok(())",
+    "$1 + $2 // café",
+    "vec![\"日本語\", \"🦀\"]",
+    "{ let x = 'ß'; x }",
+    "",
+    "/* ∀x∃y */ $$ = $lexer.span_str($span)",
+    "\"\\u{1F980}\" \t tab",
+    "Ω(n²)",
+];
+const TYPES: [&str; 5] = ["u64", "Result<Vec<&'input str>, ()>", "Größe<'a>", "()", "std::collections::HashMap<String, 日本>"];
+
+pub fn random_deco(rng: &mut Rng, g: &mut AGrammar) -> Deco {
+    let kind = *rng.pick(&[0u8, 0, 1, 2, 3, 3, 4]);
+    let ascii_only = rng.chance(1, 4);
+    let tok_names: Vec<String> = (0..g.ntoks)
+        .map(|t| {
+            let stem = if ascii_only { "t" } else { *rng.pick(&NAME_STEMS) };
+            format!("{}{}", stem, t)
+        })
+        .collect();
+    let mut used = vec![false; g.ntoks];
+    for r in &g.rules {
+        for p in r {
+            for x in &p.syms {
+                if let S::T(t) = x {
+                    used[*t] = true;
+                }
+            }
+        }
+    }
+    let p_epp = *rng.pick(&[0usize, 30, 100]);
+    let epp = (0..g.ntoks)
+        .map(|t| {
+            if used[t] && rng.chance(p_epp, 100) {
+                Some(rng.pick(&["plus", "an é", "『日本』", "🦀🦀", "q'uote", "x"]).to_string())
+            } else {
+                None
+            }
+        })
+        .collect();
+    let p_act = *rng.pick(&[0usize, 50, 100]);
+    let actions = g
+        .rules
+        .iter()
+        .map(|r| r.iter().map(|_| if kind == 1 || kind == 3 || rng.chance(p_act, 100) { Some(rng.pick(&TEXTS).to_string()) } else { None }).collect())
+        .collect();
+    let actiontype = if kind == 1 || (kind != 3 && rng.chance(1, 3)) { Some(rng.pick(&TYPES).to_string()) } else { None };
+    let rule_types = (0..g.nrules).map(|_| rng.pick(&TYPES).to_string()).collect();
+    let parse_param = if rng.chance(1, 2) { Some((rng.pick(&["p", "état", "_x1"]).to_string(), rng.pick(&TYPES).to_string())) } else { None };
+    let parse_generics = if rng.chance(1, 3) { Some(rng.pick(&["'a, T: Clone", "Ü"]).to_string()) } else { None };
+    let programs = if rng.chance(1, 2) { Some(rng.pick(&["fn f() -> &'static str { \"naïve 🦀\" }\n", "", "// только комментарий"]).to_string()) } else { None };
+    if rng.chance(1, 2) {
+        let k = rng.range(1, g.ntoks);
+        g.avoid_insert = (0..k).map(|_| rng.below(g.ntoks)).collect();
+        g.avoid_insert.sort();
+        g.avoid_insert.dedup();
+    }
+    if rng.chance(1, 3) {
+        g.expect = Some(rng.below(4));
+    }
+    if rng.chance(1, 4) {
+        g.expectrr = Some(rng.below(3));
+    }
+    let implicit = if kind == 4 && rng.chance(2, 3) {
+        let mut v: Vec<usize> = (0..rng.range(1, 2)).map(|_| rng.below(g.ntoks)).collect();
+        v.sort();
+        v.dedup();
+        v
+    } else {
+        vec![]
+    };
+    Deco { kind, tok_names, epp, actions, actiontype, rule_types, parse_param, parse_generics, programs, implicit }
+}
+
+fn quote_tok(n: &str) -> String {
+    format!("\"{}\"", n)
+}
+
+pub fn render_deco(g: &AGrammar, d: &Deco) -> String {
+    let tn = |t: usize| quote_tok(&d.tok_names[t]);
+    let mut s = String::from("%start R0\n");
+    let mut used = vec![false; g.ntoks];
+    for r in &g.rules {
+        for p in r {
+            for x in &p.syms {
+                if let S::T(t) = x {
+                    used[*t] = true;
+                }
+            }
+        }
+    }
+    if d.kind <= 2 {
+        if let Some(t) = &d.actiontype {
+            s.push_str(&format!("%actiontype {}\n", t));
+        }
+    }
+    for (t, u) in used.iter().enumerate() {
+        if !*u && !d.implicit.contains(&t) {
+            s.push_str(&format!("%token {}\n", tn(t)));
+        }
+    }
+    for (k, toks) in &g.precs {
+        let kw = ["%left", "%right", "%nonassoc"][*k as usize];
+        let ts: Vec<String> = toks.iter().map(|t| tn(*t)).collect();
+        s.push_str(&format!("{} {}\n", kw, ts.join(" ")));
+    }
+    for (t, e) in d.epp.iter().enumerate() {
+        if let Some(e) = e {
+            s.push_str(&format!("%epp {} \"{}\"\n", tn(t), e));
+        }
+    }
+    if let Some(n) = g.expect {
+        s.push_str(&format!("%expect {}\n", n));
+    }
+    if let Some(n) = g.expectrr {
+        s.push_str(&format!("%expect-rr {}\n", n));
+    }
+    if !g.avoid_insert.is_empty() {
+        let ts: Vec<String> = g.avoid_insert.iter().map(|t| tn(*t)).collect();
+        s.push_str(&format!("%avoid_insert {}\n", ts.join(" ")));
+    }
+    if let Some((n, t)) = &d.parse_param {
+        s.push_str(&format!("%parse-param {}: {}\n", n, t));
+    }
+    if let Some(t) = &d.parse_generics {
+        s.push_str(&format!("%parse-generics {}\n", t));
+    }
+    if !d.implicit.is_empty() {
+        let ts: Vec<String> = d.implicit.iter().map(|t| tn(*t)).collect();
+        s.push_str(&format!("%implicit_tokens {}\n", ts.join(" ")));
+    }
+    s.push_str("%%\n");
+    for (i, r) in g.rules.iter().enumerate() {
+        let alts: Vec<String> = r
+            .iter()
+            .enumerate()
+            .map(|(pi, p)| {
+                let mut v: Vec<String> = p
+                    .syms
+                    .iter()
+                    .map(|x| match x {
+                        S::T(t) => tn(*t),
+                        S::R(r) => format!("R{}", r),
+                    })
+                    .collect();
+                if let Some(t) = p.prec {
+                    v.push(format!("%prec {}", tn(t)));
+                }
+                if let Some(a) = &d.actions[i][pi] {
+                    v.push(format!("{{ {} }}", a));
+                }
+                v.join(" ")
+            })
+            .collect();
+        if d.kind == 3 {
+            s.push_str(&format!("R{} -> {}: {};\n", i, d.rule_types[i], alts.join(" | ")));
+        } else {
+            s.push_str(&format!("R{}: {};\n", i, alts.join(" | ")));
+        }
+    }
+    if let Some(p) = &d.programs {
+        s.push_str("%%\n");
+        s.push_str(p);
+    }
+    s
+}
